@@ -357,6 +357,17 @@ func c13(c *ctx) {
 			p := c.p.path(argOf(x, 0))
 			r.Check(p == "$2", "R3/LoadCommittee/height", c.p.Pos(x.Pos()), "TimeMachine(height)", "LoadCommittee opens the view at "+p+" instead of its height parameter")
 		}
+		// no answer without the view: every successful return has passed a successful TimeMachine
+		c.mpt(mptSpec{rule: "R3", fn: loadCommittee, events: evSet{"TimeMachine": {timeMachine}},
+			target: tgtOkReturn("ok-return"),
+			reqs:   func(string) []string { return []string{"TimeMachine.ok"} }, minTarget: 1})
+		// and the committee is read from that view, not from the live machine
+		if getMembers := c.fn("fsm.(*StateMachine).GetCommitteeMembers"); getMembers != nil {
+			for _, x := range callsIn(loadCommittee, true, getMembers) {
+				p := c.p.path(recvOf(x))
+				r.Check(has(p, ".TimeMachine($2)#0"), "R3/LoadCommittee/reads-the-view", c.p.Pos(x.Pos()), "members read from the TimeMachine view", "LoadCommittee reads the committee members from "+p+", not from the read-only view of the requested height: uncommitted writes of the block being applied would be visible")
+			}
+		}
 		newROm := c.p.IfaceMethod("lib", "StoreI", "NewReadOnly")
 		okRO := false
 		instrs(timeMachine, func(in ssa.Instruction) {
